@@ -101,9 +101,9 @@ fn level(s: &str) -> Consistency {
     }
 }
 
-/// (timestamp, tombstone) a node's storage holds for `id`
-async fn held(m: &Member, id: u64) -> Option<(u64, bool)> {
-    m.inner.iter_metadata(KS).await.unwrap().find(|e| e.0 == id).map(|e| (e.1.as_u64(), e.2))
+/// (timestamp, tombstone, digest of the bytes) a node's storage holds for `id`
+async fn held(m: &Member, id: u64) -> Option<(u64, bool, String)> {
+    held_full(m, KS, id).await
 }
 
 pub async fn record() {
@@ -153,6 +153,9 @@ pub async fn record() {
                 {
                     let ids: Vec<u64> = if kind.ends_with("many") { vec![next_id, next_id + 1] } else { vec![next_id] };
                     next_id += 2;
+                    // every other bulk write names its first document twice (an earlier draft first): all of one call's
+                    // documents carry one timestamp, and the version the issuer ends with is the one the replicas must hold
+                    let repeated = kind == "put_many" && (next_id / 2) % 2 == 0;
                     let is_del = kind.starts_with("del");
                     if is_del {
                         // the documents exist everywhere first
@@ -166,7 +169,14 @@ pub async fn record() {
                     }
                     let res = match kind {
                         "put" => handle.put(ids[0], format!("v-{}", ids[0]).into_bytes(), level(lv)).await,
-                        "put_many" => handle.put_many(ids.iter().map(|i| (*i, format!("v-{i}").into_bytes())).collect::<Vec<_>>(), level(lv)).await,
+                        "put_many" => {
+                            let mut docs: Vec<(u64, Vec<u8>)> = vec![];
+                            if repeated {
+                                docs.push((ids[0], format!("draft-{}", ids[0]).into_bytes()));
+                            }
+                            docs.extend(ids.iter().map(|i| (*i, format!("v-{i}").into_bytes())));
+                            handle.put_many(docs, level(lv)).await
+                        },
                         "del" => handle.del(ids[0], level(lv)).await,
                         _ => handle.del_many(ids.clone(), level(lv)).await,
                     };
@@ -174,12 +184,17 @@ pub async fn record() {
                     let mut local_ok = true;
                     let mut have: Vec<Value> = vec![];
                     let mut local_ts = vec![];
+                    let mut local_dig = vec![];
                     for id in &ids {
                         match held(issuer, *id).await {
-                            Some((ts, tomb)) if tomb == is_del => local_ts.push(ts),
+                            Some((ts, tomb, dig)) if tomb == is_del => {
+                                local_ts.push(ts);
+                                local_dig.push(dig);
+                            },
                             _ => {
                                 local_ok = false;
                                 local_ts.push(0);
+                                local_dig.push(String::new());
                             },
                         }
                     }
@@ -187,8 +202,8 @@ pub async fn record() {
                         let mut all = true;
                         for (j, id) in ids.iter().enumerate() {
                             match held(m, *id).await {
-                                // the mutation, or a newer one for the same id
-                                Some((ts, tomb)) if (ts == local_ts[j] && tomb == is_del) || ts > local_ts[j] => {},
+                                // the mutation (the very bytes the issuer holds), or a newer one for the same id
+                                Some((ts, tomb, dig)) if (ts == local_ts[j] && tomb == is_del && dig == local_dig[j]) || ts > local_ts[j] => {},
                                 _ => all = false,
                             }
                         }
@@ -228,8 +243,8 @@ pub async fn record() {
                 let local = held(issuer, id).await;
                 all = true;
                 for m in members.iter().skip(1) {
-                    match (held(m, id).await, local) {
-                        (Some((ts, tomb)), Some((lts, _))) if (ts == lts && tomb == is_del) || ts > lts => {},
+                    match (held(m, id).await, local.clone()) {
+                        (Some((ts, tomb, dig)), Some((lts, _, ldig))) if (ts == lts && tomb == is_del && dig == ldig) || ts > lts => {},
                         _ => all = false,
                     }
                 }
